@@ -302,7 +302,7 @@ def _deliver_guard_fd(ctx, L, rule):
 def order_send(ctx, L, rule="R-ORDER-SEND"):
     """state is advanced before RTS / connection-mode DT are handed to the bus"""
     f = L.job
-    st = L.const("state", "SENDING_IN_CTS")
+    st = L.const("state", "SENDING_RTS_CTS" if L.fd else "SENDING_IN_CTS")
     n = 0
     done = set()
     for r in runs(ctx, f):
@@ -325,7 +325,7 @@ def order_send(ctx, L, rule="R-ORDER-SEND"):
                     if x.kind in ("store", "aug", "del") and (x.target == E or contains(x.target, E)):
                         late.append(x)
             n += 1
-            inst = "21 connection-mode DT send"
+            inst = "%s connection-mode DT send" % L.tag
             if late:
                 if id(e.node) not in done:
                     ctx.violated(rule, f, inst, "session state is written after the DT frame is handed to the bus (%s at line %s): a reply "
@@ -340,9 +340,9 @@ def order_send(ctx, L, rule="R-ORDER-SEND"):
             n += 1
             created = [j for j, x in r.effects() if x.kind == "store" and x.target[0] == "sub" and x.target[1] == field("_snd_buffer") and j < i]
             if created:
-                ctx.holds(rule, "21 RTS send is preceded by the creation of the send session")
+                ctx.holds(rule, "%s RTS send is preceded by the creation of the send session" % L.tag)
             else:
-                ctx.violated(rule, f, "21 RTS send", "RTS is handed to the bus before the send session exists: an immediate CTS finds no session", e.node)
+                ctx.violated(rule, f, "%s RTS send" % L.tag, "RTS is handed to the bus before the send session exists: an immediate CTS finds no session", e.node)
     if n < 2:
         ctx.unknown(rule, "send sites not found (%d)" % n)
 
